@@ -184,7 +184,7 @@ def observe_channel(F, spec, P, cfg):
                     still = r.spec_out is not None and r.spec_out[0] == 'P6' and r.rename is not None and \
                         r.rename.get(ss[5]) is not None and r.spec_out[5] == ss[5]
                     contributing = kind == 'cc' and cname in ('CC.6', 'CC.38', 'CC.96', 'CC.97', 'CC.98', 'CC.99', 'CC.100', 'CC.101')
-                    expired = kind == 'poll' and any(p[0] == 'lt' and p[2] is False for p in r.preds)
+                    expired = kind == 'poll' and A.elapsed_vs_timeout(r.preds)[0] is False
                     if contributing or expired:
                         if pending_reported != 1:
                             status, why = bad('pending controller-6 value reported %d times (must be exactly once)' % pending_reported)
